@@ -27,7 +27,10 @@ for _m, _req in (("set_if_equals", ["upred('in_store', new_ref)"]), ("remove_if_
         note="RefsContainer contract: returns True iff the conditional update took effect; a failing call changes nothing",
     )
 contract(prop=["C06"], file="<abstract>", func="RefsAbs.__getitem__", trusted=True,
-         params={"self": "obj:RefsAbs", "name": "opaque"}, returns="opaque", raises={"KeyError": None, ANY: None})
+         params={"self": "obj:RefsAbs", "name": "opaque"}, returns="opaque",
+         # ghost view of a read: KeyError exactly for a missing ref, otherwise THE current value of that ref
+         raises={"KeyError": ["upred('ref_missing', name)"], ANY: None},
+         ensures=["not upred('ref_missing', name)", "result is uf('ref_value', name)"])
 contract(prop=["C06"], file="<abstract>", func="StoreAbs.__contains__", trusted=True,
          params={"self": "obj:StoreAbs", "sha": "opaque"}, returns="bool", raises={ANY: None},
          ensures=["result == upred('in_store', sha)"],
@@ -46,6 +49,8 @@ contract(
     prop=["C06"], file=S, func="ReceivePackHandler._ref_is_stale",
     params={"self": "obj:ReceivePackHandler", "ref": "opaque", "oldsha": "opaque", "zero_sha": "opaque"}, returns="bool",
     raises={ANY: None},
+    # stale <=> the ref's current value - the zero id for a missing ref - differs from the value the client named
+    ensures=["result == (not ((zero_sha if upred('ref_missing', ref) else uf('ref_value', ref)) == oldsha))"],
 )
 
 contract(
@@ -96,8 +101,12 @@ contract(
     options={"default_param": "opaque", "faults": "caught", "focus": ["old_sha1", "new_sha1", "refname", "old_refs", "new_refs", "ref_status", "target"],
              "asserts": [
                  # None would mean "unconditional" to the refs API: a push never overwrites a value it has not seen
-                 ("cas-set", "if not target.refs.set_if_equals(refname, old_sha1, new_sha1):", ["old_sha1 is not None"]),
-                 ("cas-remove", "if not target.refs.remove_if_equals(refname, old_sha1):", ["old_sha1 is not None"]),
-             ]},
+                 # ... and the value it is conditioned on is the one the ref listing showed the client (old_refs.get(refname, ZERO)):
+                 # every .get(name, default) in this function is a look-up in that listing (assumed marker by method name), a value
+                 # re-read from the target just before the update is not
+                 ("cas-set", "if not target.refs.set_if_equals(refname, old_sha1, new_sha1):", ["old_sha1 is not None", "old_sha1 is uf('seen_value', refname)"]),
+                 ("cas-remove", "if not target.refs.remove_if_equals(refname, old_sha1):", ["old_sha1 is not None", "old_sha1 is uf('seen_value', refname)"]),
+             ],
+             "opaque_posts": {"get": ["result is uf('seen_value', arg0)"]}},
     cover=False, verify_paths_limit=100000,
 )
